@@ -57,6 +57,10 @@ def entanglement_of_formation(rho: np.ndarray, dim: list[int] | int = None) -> f
              entanglement-of-formation of :code:`rho`.
 
     """
+    # A one-dimensional array is a state vector: treat it as a column vector.
+    if rho.ndim == 1:
+        rho = rho.reshape(-1, 1)
+
     dim_x, dim_y = rho.shape
     round_dim = int(np.round(np.sqrt(max(dim_x, dim_y))))
 
